@@ -106,6 +106,7 @@ def run(prog, chk):
     chk.rule(geomalg.check_sites, prog, chk, "C10")  # the box of a referenced element is the one its attributes define (a defaulted coordinate is a silent resolution)
     chk.rule(C06.output_order, prog, chk)
     chk.rule(error_swallow, prog, chk)
+    chk.rule(consumed_only_when_resolved, prog, chk)
     chk.rule(missing_bbox_default, prog, chk)
     from props import strops
     chk.rule(strops.check_for, prog, chk, "C10")  # A14.str-ops: how this property's strings are cut up is a reviewed, frozen inventory
@@ -689,3 +690,41 @@ def missing_bbox_default(prog, chk):
     # positive control: the matcher sees the Option<BoundingBox> combinators that exist today (ok_or_else, is_some, map)
     chk.floor("A6.missing-bbox-default", seen, 15, "combinator applied to an Option<BoundingBox>")
     chk.ok("A6.missing-bbox-default", "scan", "-", f"{seen} combinators on Option<BoundingBox> scanned, none of them defaulting ({', '.join(DEFAULTING)})")
+
+
+
+def consumed_only_when_resolved(prog, chk):
+    """an attribute that refers to another element is used up only once the reference has been resolved: where a lookup
+    of the referenced element's box may find nothing and the function then returns normally (the element is simply not
+    positioned yet), no attribute has been removed on the way to that lookup.  Removing `xy="#b|h"` first and then
+    finding that `#b` has no box yet leaves an element that has lost its position for good"""
+    from props import C04 as _C04
+    GB = "svgdx::context::ElementMap::get_element_bbox"
+    n = 0
+    for body in prog.bodies.values():
+        if body.unit != "svgdx-lib" or not body.path.startswith("svgdx::element::"):
+            continue
+        sites = body.call_sites(lambda c: c.decl_path == GB)
+        if not sites:
+            continue
+        rem = _C04.removal_sites(prog, body)
+        for k, (bb, t, c) in enumerate(sites):
+            # `?` first: the Option inside the Result
+            opt = None
+            for (b2, i2, node, how) in R.uses_of(body, t["dest"][0]):
+                if i2 == R.TERM and node.get("k") == "call" and "fn" in node and Callee(node["fn"]).decl_path == "std::ops::Try::branch":
+                    for b3, i3, n3 in body.all_stmts():
+                        pl3 = op_place((n3.get("rv") or {}).get("op")) if (n3.get("rv") or {}).get("k") == "use" else None
+                        if pl3 is not None and pl3[0] == node["dest"][0] and "as Continue" in pl3[1] and "lhs" in n3 and not n3["lhs"][1] and "Option<" in (body.local_ty(n3["lhs"][0]) or ""):
+                            opt = n3["lhs"][0]
+            if opt is None:
+                continue
+            fate, detail = option_none_fate(prog, body, opt)
+            if fate != "ok-exit":
+                continue
+            n += 1
+            chk.touch(body)
+            early = [(rb, rt, names) for (rb, rt, names) in rem if bb in body.reach_after(rb) and not body.dominates(bb, rb)]
+            key = f"{body.short}:get_element_bbox" + (f"#{k}" if len(sites) > 1 else "")
+            chk.ob(not early, "A6.consumed-when-resolved", key, body.where(bb, t.get("line")), "no attribute is removed before this lookup, whose failure is a normal return", f"{body.short} removes {sorted({x for (_b, _t, nm) in early for x in (nm or ['?'])})} before it has looked up the referenced element's box, and returns normally when there is none (yet): the attribute is gone although nothing was placed - processed again once the reference can be resolved, the element no longer says where it belongs")
+    chk.ok("A6.consumed-when-resolved", "scan", "-", f"{n} box lookup(s) whose failure is a normal return examined")
